@@ -2,7 +2,7 @@
    node signatures and meta flags (hv_sig_ext); every documented neutral edit
    preserves them.                                                            *)
 From Coq Require Import ZArith NArith List Bool Lia Permutation.
-From XV Require Import core.Value model.Hash.
+From XV Require Import core.Value model.Hash proofs.Sort_lemmas.
 Import ListNotations.
 
 Lemma seq_list_ext {A} (f g : A -> hres) (l : list A) :
@@ -165,8 +165,15 @@ Qed.
 
 Lemma meta_eq_remove_meta h h' : meta_eq h h' -> forall v, remove_meta h v = remove_meta h' v.
 Proof.
-  intros M v. destruct v; try reflexivity; cbn [remove_meta]; f_equal; apply filter_ext; intros x;
-    rewrite (meta_eq_is_meta h h' M); reflexivity.
+  intros M v. induction v as [| z | b | b | s | s | q | l IHl | l IHl | n] using value_ind2; try reflexivity.
+  - rewrite !remove_meta_list. f_equal.
+    rewrite (filter_ext (fun x => negb (is_meta h x)) (fun x => negb (is_meta h' x)))
+      by (intros x; rewrite (meta_eq_is_meta h h' M); reflexivity).
+    apply map_ext_in. intros x Hx. apply filter_In in Hx. rewrite Forall_forall in IHl. apply IHl. apply Hx.
+  - rewrite !remove_meta_dict. f_equal.
+    rewrite (filter_ext (fun kv : list N * value => negb (is_meta h (snd kv))) (fun kv => negb (is_meta h' (snd kv))))
+      by (intros x; rewrite (meta_eq_is_meta h h' M); reflexivity).
+    apply map_ext_in. intros x Hx. apply filter_In in Hx. rewrite Forall_forall in IHl. cbn beta. f_equal. apply (IHl x (proj1 Hx)).
 Qed.
 
 Lemma meta_eq_argsel h h' : meta_eq h h' -> forall fields a, argsel_of h fields a = argsel_of h' fields a.
